@@ -113,15 +113,22 @@ fn token(coding: Coding, style: u8) -> Option<String> {
         Coding::Other(1) => "br",
         Coding::Other(2) => "identity",
         Coding::Other(3) => "compress",
-        Coding::Other(_) => "x-unknown",
+        Coding::Other(4) => "x-unknown",
+        // tokens that merely contain the name of a coding are other codings
+        Coding::Other(5) => "gzipped",
+        Coding::Other(6) => "nodeflate",
+        Coding::Other(_) => "zip",
     };
-    Some(match style % 5 {
+    Some(match style % 8 {
         0 => base.to_string(),
         1 => base.chars().enumerate().map(|(i, c)| if i % 2 == 0 { c.to_ascii_uppercase() } else { c }).collect(),
         2 => base.to_ascii_uppercase(),
         3 => format!("identity, {base}"),
         // the list spread over two field lines (joined with a line break marker that the builder turns into two fields)
-        _ => format!("identity\n{base}"),
+        4 => format!("identity\n{base}"),
+        5 => format!("{base}, identity"),
+        6 => format!("identity,{base}"),
+        _ => format!("identity ,\t {base}"),
     })
 }
 
@@ -188,11 +195,11 @@ non-trivial = payload non-empty and one of {>=2 deflate blocks, >=2 segments, a 
         let max = tier.pick(200 * 1024, 400 * 1024);
         (
             prop_oneof![3 => gen::small_payload(200), 2 => gen::payload(max)],
-            prop_oneof![4 => Just(Coding::Gzip), 4 => Just(Coding::Deflate), 2 => (0u8..5).prop_map(Coding::Other)],
+            prop_oneof![4 => Just(Coding::Gzip), 4 => Just(Coding::Deflate), 2 => (0u8..8).prop_map(Coding::Other)],
             encoder_strategy(),
             gz_strategy(),
             prop::bool::weighted(0.25),
-            0u8..5,
+            0u8..8,
             prop_oneof![8 => Just(0u8), 3 => Just(1u8), 1 => Just(2u8)],
             crate::props::c01::framing_strategy(),
             seg(),
@@ -467,8 +474,9 @@ non-trivial = payload non-empty and one of {>=2 deflate blocks, >=2 segments, a 
         ctx.label_if(STATUSES[case.status as usize % STATUSES.len()] >= 400, "status-4xx/5xx");
         ctx.label_if(b.blocks >= 2, "multi-block");
         ctx.label_if(payload.len() > 65536, "payload>64KiB");
-        ctx.label_if(case.token_style % 5 == 3, "token-in-list");
-        ctx.label_if(case.token_style % 5 == 4, "token-on-second-field-line");
+        ctx.label_if(matches!(case.token_style % 8, 3 | 5 | 6 | 7), "token-in-list");
+        ctx.label_if(case.token_style % 8 == 4, "token-on-second-field-line");
+        ctx.label_if(matches!(case.coding, Coding::Other(5..=7)), "token-containing-a-coding-name");
         Outcome::Pass
     }
 }
